@@ -160,6 +160,17 @@ func runC12(b *mon.B) {
 					}
 					q.Args = append(q.Args, a)
 				}
+				if r.Chance(1, 500) || (round == 0 && ci == 0 && k == 3 && b.Index%4 == 0) {
+					// a request that fills the packet with bytes a JSON encoder expands six-fold
+					// (control characters, <, >, &, 0x7f): the record is several times the size of
+					// the packet and must still reach the sink whole
+					q.Args = q.Args[:0]
+					fill := r.PickS("\x01", "\x1f", "<", ">", "&", "\x7f\x00", "\x02<\x1b&", "\"\\\x08")
+					for i := 0; i < 254; i++ {
+						q.Args = append(q.Args, strings.Repeat(fill, 255)[:255])
+					}
+					ca = "full-size-expanding"
+				}
 				// the identifying argument sits first, somewhere in the middle or last, so that
 				// empty arguments also occur at the very end
 				tid := "task_id=" + q.ID
